@@ -604,7 +604,7 @@ func runC18Mainnet(c *core.Ctx) {
 	for _, h := range hs {
 		r.m.AddGenuine(h)
 	}
-	budget := ch.Range(6, 9) // seal computations (about 2 s each)
+	budget := ch.Range(5, 7) // seal computations (2-4 s each)
 	used, corrupted, genuine := 0, 0, 0
 	for i := i0 + 1; i < len(hs) && used < budget; i++ {
 		c.Step("c18-mainnet")
